@@ -47,7 +47,7 @@ class Drive:
         who = cut.get("who", 0)
         targets = self.sessions if who == "all" else [self.sessions[who]]
         idxs = range(len(self.sessions)) if who == "all" else [who]
-        if action in ("server-close", "stall"):
+        if action == "server-close":
             self.frozen = True
             for s in targets:
                 s.peer.freeze()
@@ -86,14 +86,16 @@ class Drive:
             elif action == "data-rst":
                 for r, w in s.peer.data_conns:
                     w.transport.abort()
-            elif action in ("server-close", "stall"):
+            elif action == "server-close":
                 # the peer stays, idle; a script blocked in a data read keeps reading
                 pass
-            elif action == "stall-noread":
-                if s.peer.writer is not None:
-                    s.peer.writer.transport.pause_reading()
+            elif action == "stall":
+                # complete silence, all sockets stay open, the peer keeps reading what arrives
                 for r, w in s.peer.data_conns:
-                    w.transport.pause_reading()
+                    self.drainers.append(asyncio.ensure_future(self._drain(r)))
+            elif action == "stall-noread":
+                # complete silence, all sockets stay open, nothing is read any more
+                pass
             else:
                 raise ValueError(action)
         if action == "server-close":
